@@ -413,6 +413,7 @@ pub fn replay(sub: &str, case: Value) -> Result<(), String> {
     fn de<T: serde::de::DeserializeOwned>(v: Value) -> Result<T, String> {
         serde_json::from_value(v).map_err(|e| format!("HARNESS: bad case: {e}"))
     }
+    #[cfg(any(feature = "std", feature = "nostd-spin"))]
     if sub.starts_with("racing") {
         return super::c10::replay(sub, case);
     }
